@@ -196,7 +196,7 @@ func c04Publication(c *Ctx, m *Module, pfx string) {
 			// under string(ename) == name
 			match := hasFact(factsAt(ret), func(f Fact) bool {
 				bo, ok := f.Cond.(*ssa.BinOp)
-				if !ok || bo.Op != token.EQL || !f.Pol {
+				if !ok || !assertsEq(bo, f.Pol) {
 					return false
 				}
 				d := describe(bo.X) + "|" + describe(bo.Y)
